@@ -252,6 +252,10 @@ class Executor:
             m = self.attr_models.get((v.cls, "__bool__"))
             if m is not None:
                 return self.truth(state, m(self, state, v))
+            if v.cls in getattr(self, "foreign_classes", ()):
+                # an object of a class the CALLER supplies (a transform, a callback, a loss ...): it may define __bool__ / __len__ as it likes, so its
+                # truthiness is unconstrained; only `is None` / `is not None` tests are decided for it
+                return z3.Bool("truth(%s)" % v.oid)
             return True
         if isinstance(v, Closure):
             return True
@@ -809,6 +813,9 @@ class Executor:
                     r = other is None
             elif isinstance(a, Obj) and isinstance(b, Obj):
                 r = a.oid == b.oid
+            elif isinstance(a, Opaque) and isinstance(b, Opaque):
+                # two uninterpreted values (e.g. an array returned by a havoc'ed kernel and an operand's array): whether they are the same object is unknown
+                r = True if a is b else z3.Bool("same_object(%s,%s)" % tuple(sorted((a.label, b.label))))
             elif isinstance(a, bool) and isinstance(b, bool):
                 r = a is b
             elif is_bool(a) and is_bool(b):
